@@ -7,7 +7,7 @@
    delimited by conv_bos_ok and refuted outside it.  The functional part of the wrappers (result = reference conversion)
    is covered by the correspondence (models in ModConv.v vs implementation vs Python/C library references). *)
 From Coq Require Import List ZArith Lia Bool.
-From SC Require Import Base Wp Cfg Comb CombProofs Utf8 ModConv ProofsConv PropDefs.
+From SC Require Import Base Wp Cfg Comb CombProofs Utf8 ModConv ProofsConv PropDefs HandlerTime.
 From SC.Gen Require Import Consts.
 Local Open Scope Z_scope.
 Theorem C15_decode_encode : forall cp, enc_valid cp = true -> dec_list (utf8_enc cp) = Some (cp, enc_len cp).
@@ -67,3 +67,23 @@ Theorem C15_cfg_repo_wf : wf_cfg cfg_repo.
 Proof. exact wf_cfg_repo. Qed.
 Example C15_example : dec_list (utf8_enc 0x20AC) = Some (0x20AC, 3) /\ utf8_enc 0x20AC = (0xE2 :: 0x82 :: 0xAC :: nil).
 Proof. split; reflexivity. Qed.
+
+(* what the constraint handler finds (a handler need not return): every report the single-character converters make with a
+   usable destination happens after dest has been cleared -- dest[0] = 0, and all dmax bytes with null-slack *)
+Theorem C15_wctomb_s_reports_after_clearing : forall c utf8 retvalp dest dmax wc m,
+  retvalp <> 0 -> dest <> 0 -> 1 <= dmax <= rmax_wstr c ->
+  at_handler (dest_cleared c dest dmax) (wctomb_s c utf8 retvalp dest dmax wc BOS_UNKNOWN) m.
+Proof. exact wctomb_s_reports_after_clearing. Qed.
+Print Assumptions C15_wctomb_s_reports_after_clearing.
+
+Theorem C15_wcrtomb_s_reports_after_clearing : forall c utf8 retvalp dest dmax wc ps m,
+  retvalp <> 0 -> ps <> 0 -> dest <> 0 -> 1 <= dmax <= rmax_wstr c ->
+  at_handler (dest_cleared c dest dmax) (wcrtomb_s c utf8 retvalp dest dmax wc ps BOS_UNKNOWN) m.
+Proof. exact wcrtomb_s_reports_after_clearing. Qed.
+Print Assumptions C15_wcrtomb_s_reports_after_clearing.
+
+Theorem C15_error_helper_clears_before_it_reports : forall c w d dmax code m, 0 < w -> 0 < dmax ->
+  at_handler (fun m' => load m' w d = 0 /\ (null_slack c = true -> forall a, d <= a < d + dmax * w -> m' a = 0))
+             (handle_error c w d dmax code) m.
+Proof. exact handle_error_clears_first. Qed.
+Print Assumptions C15_error_helper_clears_before_it_reports.
